@@ -264,6 +264,15 @@ def run(ctx, rep):
                 sl_ = bigger[0] if bigger else None
         return out
 
+    # partial-write APIs never count as "the element was written": only write_all completes a short write
+    PARTIAL = r"io::Write::(write|write_vectored)$|FileExt>?::write_at$"
+    for n in write_nodes:
+        if cmatch(g.term(n), PARTIAL):
+            rep.violation("R04.2", "%s|partial-write-api:%s" % (ENT, cpath(g.term(n)).split("::")[-1]), cpath(g.term(n)),
+                          "the worker writes with an API that may write fewer bytes than given without an error (short write, IOV_MAX): "
+                          "the journal gets a hole while offsets, returned segments and the acknowledgement assume a complete write",
+                          where=g.where(n))
+    write_nodes = [n for n in write_nodes if not cmatch(g.term(n), PARTIAL)]
     wloops = loops_containing(write_nodes)
     sloops = loops_containing(send_nodes)
     if not rep.expect("R04.2", "write-loop", len(wloops) >= 1, "no loop around the worker's write_all found"):
